@@ -189,7 +189,7 @@ def run(chk):
     chk.trusted += ["the C compiler (gcc) as the judge of valid C17", "Generated/Rules.lean is produced by harness/extract_rules.py from FFCx's create_quadrature and QuadratureRule.id()"]
     rs = extract_rules.regenerate()
     chk.notes["rules_in_table"] = len(rs)
-    chk.exhaustive = True
+    chk.notes["exhaustive_part"] = "the rule table (cell x degree 0..30 x default/GLL/vertex) is decided completely; forms are sampled"
     chk.lean("FfcxProofs.C19", ["Ffcx.LNodes.rule_ids_distinct", "Ffcx.LNodes.declare_spec", "Ffcx.LNodes.declare_mono",
                                "Ffcx.LNodes.scoped_inv", "Ffcx.LNodes.scopedL_inv"])
     from .. import scope_checks as SC
